@@ -124,17 +124,17 @@ C07Written(r) ==
                 textual == {mTEXT, mLYRIC, mMARKER} IN
          /\ r.ok
          /\ \E ch \in Choices(r.division, d) : LET st == StartsOf(r, d, ch) IN
-              \* every demanded event is there: at the start of its instance, with the written value, settings on track 0
+              \* every demanded event is there: at the start of its instance, with the written value (which track carries the
+              \* settings is C08's sentence, judged there)
               /\ \A dm \in dem : \E j \in 1..Len(ctl) :
                     /\ ctl[j][2] = st[dm[1]]
                     /\ Satisfies(ctl[j], dm)
-                    /\ (dm[2] \in {mTEMPO, mMETER, mKEYSIG} => ctl[j][1] = 0)
               \* and nothing else: every control event is a demanded one, or restates at an instance start the tempo / meter /
               \* key signature already in force (harmless; the property does not forbid it)
               /\ \A j \in 1..Len(ctl) :
                     \/ \E dm \in dem : ctl[j][2] = st[dm[1]] /\ Satisfies(ctl[j], dm)
                     \/ (ctl[j][6] \in textual /\ ctl[j][2] = 0)
-                    \/ /\ ctl[j][6] \in {mTEMPO, mMETER, mKEYSIG} /\ ctl[j][1] = 0
+                    \/ /\ ctl[j][6] \in {mTEMPO, mMETER, mKEYSIG}
                        /\ \E i \in 1..Len(d) : st[i] = ctl[j][2] /\ Satisfies(ctl[j], <<i, ctl[j][6], InForceAt(dem, ctl[j][6], i)>>)
          \* (a text, lyric or marker event that no instance asked for is tolerated at tick 0 only: a writer's own label)
          /\ VelocityOk(r, d)
